@@ -55,3 +55,156 @@ PLANS["C14"] = {
                        "Kani cross-checks: slice tracker <= 3 (quick) / 4 (thorough) words; eval_binary 4 (quick) / 6 (thorough) operators"]},
     "explanation": "C14 is eval_binary's post-condition (result == reference nearest-live-neighbour reduction for every order and length) plus the tracker's representation invariant; Verus discharges it on text extracted from /repo each run.",
 }
+
+
+# ---------------------------------------------------------------------------------------------
+U7_FUNCTIONAL = """b_add b_sub b_mul b_div b_min b_max b_rem b_bitwise_or b_bitwise_and b_bitwise_xor b_left_shift b_right_shift
+ b_pow b_atan2 b_and_or cmp_eq_ord if_else unary_plus_log_consts conv_to_bool
+ u_sin u_cos u_tan u_asin u_acos u_atan u_sinh u_cosh u_tanh u_asinh u_acosh u_atanh u_floor u_ceil u_trunc
+ u_fract u_exp u_sqrt u_cbrt u_ln u_log2 u_log10 u_round u_swap_bytes u_to_le u_to_be
+ u_abs u_signum u_minus u_fact u_cast_to_int u_cast_to_float conv_to_int_float vec_scalar_ops""".split()
+U7_VECTOR = ["vec_dot_cross"]
+
+VALUE_TRUST = [
+    A_CBMC, A_FMT, A_NOOVF,
+    "table entries are verified as text cut from /repo/src/value.rs on every run (extract/gen_tables.py): G1 private functions are called through the hook's one-line forwarding wrappers, G3 association entry<->text is by source position, G4 the entry expression is called directly instead of through the fn pointer stored in the table",
+    "float primitives (sin, cos, ..., powf, powi, atan2) are uninterpreted: replaced by distinct tag functions via -Z stubbing; floor/ceil/round/trunc/fract/abs/signum/min/max and + - * / use CBMC's IEEE-754 model",
+    "instantiation Val<i32, f64> only (i64 / f32 are not covered)",
+]
+
+
+def c16_kani(tier, gen):
+    hs = ["u7::" + h for h in U7_FUNCTIONAL] + ["vgen::" + h for h in gen["value_harnesses"]["ac"]]
+    if tier == "thorough":
+        hs += ["u7::" + h for h in U7_VECTOR]
+    return hs
+
+
+def c17_kani(tier, gen):
+    hs = ["vgen::" + h for h in gen["value_harnesses"]["total_scalar"]]
+    if tier == "thorough":
+        hs += ["vgen::" + h for h in gen["value_harnesses"]["total_array"]]
+    return hs
+
+
+PLANS["C16"] = {
+    "level": "proof",
+    "kani": c16_kani,
+    "kani_timeout": {"quick": 900, "thorough": 1800},
+    "owns_unprefixed": False,      # panics / overflows in these harnesses belong to C17
+    "trusted_base": VALUE_TRUST,
+    "assumptions": VALUE_TRUST + [
+        "functional Int x Int obligations of * / % (and ^ with exponent 2, 3) range over [-2048, 2047] u {MIN, MIN+1, -65536, 65535, 46340, 46341, MAX-1, MAX} (equivalence of two 32-bit multiplier/divider circuits is out of reach of SAT); every other obligation ranges over all 2^32 / 2^64 operand values",
+        "`^` int^int is exact for exponents 0..3 and for bases 0, 1, -1; for other exponents only `int or error`, `error for |base| >= 2 and exponent >= 32` and `error for negative exponents` are decided",
+        "O-flag-AC (flagged commutative => associative and commutative) is decided on Int/Bool operands (`&&`, `||`: Bool; `*`: |x| <= 1024; vector operators: length 3) and only when no grouping yields an error value",
+    ],
+    "not_covered": [
+        "literal syntax and parsing of values (FromStr for Val, ValMatcher regex)",
+        "precedence of expressions over the value table (parser; see C01 for the order function)",
+        "array x scalar arithmetic results (only totality and error propagation are decided, in the thorough tier)",
+    ],
+    "bounds": {"quick": ["scalar operands: Int(any i32) | Float(any f64) | Bool | None | Error — complete", "see assumptions for the narrowed Int x Int domain of * / % ^"],
+               "thorough": ["as quick, plus arrays of length 0..=3 with symbolic entries for dot / cross / . / length"]},
+    "explanation": "Every entry of ValOpsFactory::make() is checked against the documented typing and error rules, one loop-free harness per operator over the whole scalar operand domain (operand kinds enumerated concretely, operand data symbolic).",
+}
+PLANS["C17"] = {
+    "level": "proof",
+    "kani": c17_kani,
+    "kani_timeout": {"quick": 900, "thorough": 1800},
+    "owns_unprefixed": True,
+    "ignore_prefixes": ["C16 "],
+    "trusted_base": VALUE_TRUST,
+    "assumptions": VALUE_TRUST,
+    "not_covered": ["panics reachable only through parse-time folding of literals are the same operator calls; the parser path itself is not executed",
+                    "arrays longer than 3 entries (thorough tier covers 0..=3)"],
+    "bounds": {"quick": ["scalar operands, complete: all 25 ordered kind pairs x all 2^32 / 2^64 payload values per entry"],
+               "thorough": ["as quick, plus every kind pair involving arrays of length 0..=3"]},
+    "explanation": "C17 is the contract `returns` (no panic, no overflow, no failed unwrap, no out-of-bounds) on every entry of the value table; one generated harness per entry.",
+}
+PLANS["C19"] = {
+    "level": "proof",
+    "kani": {"quick": ["u8_float::float_table_f64", "u8_float::float_table_f32", "u8_float::float_table_shape"],
+             "thorough": ["u8_float::float_table_f64", "u8_float::float_table_f32", "u8_float::float_table_shape",
+                          "u8_float::float_table_real_f64_a", "u8_float::float_table_real_f64_b", "u8_float::float_table_real_f64_c"]},
+    "kani_timeout": {"quick": 900, "thorough": 2400},
+    "owns_unprefixed": True,
+    "trusted_base": [A_CBMC, A_FMT, A_NOOVF,
+                     "std's f64/f32 primitives compute the functions they are named after (the property's own yardstick); under Kani they are uninterpreted distinct tag functions",
+                     "quick tier: entries are verified as text cut from /repo/src/operators.rs (gen_tables.py, G3/G4); thorough tier additionally calls the run-time table of FloatOpsFactory::<f64>::make() through its fn pointers"],
+    "assumptions": [A_CBMC, A_FMT, A_NOOVF, "CBMC's IEEE-754 model for + - * / neg abs signum floor ceil round trunc fract min max"],
+    "not_covered": ["evaluation through parsed expressions in infix and call form (parser)", "rounding accuracy of std's transcendental functions"],
+    "bounds": {"all": ["none: all f64 / f32 bit patterns for every entry"]},
+    "explanation": "Every entry of FloatOpsFactory::<f64|f32>::make() equals the Rust primitive of its documented name with the documented argument order, for all argument bit patterns; constants equal std::f64::consts converted to T.",
+}
+PLANS["C01"] = {
+    "level": "model_checking",
+    "verus": ["u123"],
+    "kani": {"quick": ["u5::is_operator_binary_all", "u4::unary_apply", "u4::flatop_apply", "u4::unary_append",
+                       "u6::flat_perm_desc_3", "u6::flat_ltr_3", "u6::flat_last_3", "u6::deep_perm_desc_3", "u6::deep_ltr_3"],
+             "thorough": ["u5::is_operator_binary_all", "u4::unary_apply", "u4::flatop_apply", "u4::unary_append",
+                          "u6::flat_perm_desc_3", "u6::flat_ltr_3", "u6::flat_last_3", "u6::deep_perm_desc_3", "u6::deep_ltr_3",
+                          "u6::flat_perm_desc_4", "u6::flat_ltr_4", "u6::flat_last_4", "u6::deep_perm_desc_4", "u6::deep_ltr_4"]},
+    "kani_timeout": {"quick": 900, "thorough": 3000},
+    "owns_unprefixed": True,
+    "cex_map": PLANS["C14"]["cex_map"], "cex_native": PLANS["C14"]["cex_native"],
+    "trusted_base": PLANS["C14"]["trusted_base"] + [A_CBMC, A_FMT, A_NOOVF,
+        "A-attach (read from flat.rs make_expression / flatten_vecs, not verified): the unary chain of a parenthesis group is attached to the right-most operator of minimal priority of that group"],
+    "assumptions": [A_VERUS, A_CBMC, A_FMT, A_NOOVF],
+    "not_covered": ["tokenisation, depth-scaled priorities and WHICH operator a parenthesised unary function is attached to (make_expression)",
+                    "constant folding (C02)", "constants standing for their values (tokenizer)"],
+    "bounds": {"quick": ["reduction kernel (Verus): unbounded", "sign rule: complete finite domain", "unary composition: chains of length 0..=4",
+                         "application order: 3 operators from a symbolic 3-entry table, priorities 0..=99, depth 0..=2"],
+               "thorough": ["as quick, application order with 4 operators"]},
+    "explanation": "Partial: decided are (a) the reduction of an operand array under a given order (Verus, all sizes), (b) the order function (bounded), (c) unary composition (bounded), (d) the unary/binary role of signs (complete).",
+}
+PLANS["C13"] = {
+    "level": "model_checking",
+    "kani": {"quick": ["u5::is_operator_binary_all", "u5::numeric_text_4"], "thorough": ["u5::is_operator_binary_all", "u5::numeric_text_4", "u5::numeric_text_6"]},
+    "kani_timeout": {"quick": 900, "thorough": 2400},
+    "owns_unprefixed": True,
+    "trusted_base": [A_CBMC, A_FMT, A_NOOVF],
+    "assumptions": [A_CBMC, A_FMT, A_NOOVF],
+    "not_covered": ["operator-name matching, longest match, identifier look-ahead (regex) and brace scanning — all inside tokenize_and_analyze"],
+    "bounds": {"quick": ["sign rule: complete", "number recogniser: all ASCII strings of <= 4 bytes"], "thorough": ["sign rule: complete", "number recogniser: all ASCII strings of <= 6 bytes"]},
+    "explanation": "Partial: the sign rule (is_operator_binary) over its complete finite domain and the number recogniser (is_numeric_text) for all short ASCII strings.",
+}
+PLANS["C09"] = {
+    "level": "proof",
+    "kani": {"quick": ["u5::partial_index"], "thorough": ["u5::partial_index"]},
+    "owns_unprefixed": True,
+    "trusted_base": [A_CBMC, A_FMT, A_NOOVF], "assumptions": [A_CBMC, A_FMT, A_NOOVF],
+    "not_covered": ["that the index check runs for every index before any work (partial_iter_relaxed)", "every variable-list claim of C09 (DeepEx)", "n-th / iterated / mixed derivative equalities"],
+    "bounds": {"all": ["none: all usize pairs"]},
+    "explanation": "Thin partial claim: check_partial_index(i, n, _) is Err iff i >= n for all usize pairs (complete, loop-free).",
+}
+PLANS["C07"] = {
+    "level": "model_checking",
+    "kani": {"quick": ["c07::preconditions_len_0_1_2"] + ["c07::preconditions_len_3_a%d" % k for k in range(7)],
+             "thorough": ["c07::preconditions_len_0_1_2"] + ["c07::preconditions_len_3_a%d" % k for k in range(7)] + ["c07::preconditions_len_4_paren"]},
+    "kani_timeout": {"quick": 900, "thorough": 2400},
+    "owns_unprefixed": True,
+    "trusted_base": [A_CBMC, A_FMT, A_NOOVF], "assumptions": [A_CBMC, A_FMT, A_NOOVF],
+    "not_covered": ["operand/operator count check (make_expression, DeepEx::new)", "unknown-character rejection (tokenizer)", "token sequences longer than the bound"],
+    "bounds": {"quick": ["all token sequences of length 0..=3 over 7 token kinds (1 + 7 + 49 + 343)"], "thorough": ["as quick, plus 196 sequences of length 4 starting with `((`, `(x`, `x-`, `(sin`"]},
+    "explanation": "Partial, bounded: check_parsed_token_preconditions rejects exactly the documented malformed shapes for every short token sequence.",
+}
+PLANS["C15"] = {
+    "level": "model_checking",
+    "kani": {"quick": ["c15::consuming_vs_cloning_3"], "thorough": ["c15::consuming_vs_cloning_3", "c15::consuming_vs_cloning_4_a0", "c15::consuming_vs_cloning_4_a1", "c15::consuming_vs_cloning_4_a2"]},
+    "kani_timeout": {"quick": 900, "thorough": 3000},
+    "owns_unprefixed": True,
+    "trusted_base": [A_CBMC, A_FMT, A_NOOVF], "assumptions": [A_CBMC, A_FMT, A_NOOVF],
+    "not_covered": ["entry points eval_vec / eval_iter beyond their arity guards (see C04)", "expressions with more than 4 nodes or more than 2 variables", "unary chains longer than 1"],
+    "bounds": {"quick": ["3 nodes over {literal, var 0, var 1}: all 27 shapes x both orders, symbolic values and unary flags"], "thorough": ["as quick, plus 4 nodes: all 81 shapes x all 6 orders"]},
+    "explanation": "Bounded: eval_flatex_consuming_vars agrees with eval_flatex_cloning and with an independent reference reduction; no moved-out value reaches an operator; single-occurrence variables are not cloned.",
+}
+PLANS["C04"] = {
+    "level": "model_checking",
+    "kani": {"quick": ["c04::arity_guards", "c04::var_lookup"], "thorough": ["c04::arity_guards", "c04::var_lookup"]},
+    "kani_timeout": {"quick": 900, "thorough": 2400},
+    "owns_unprefixed": True,
+    "trusted_base": [A_CBMC, A_FMT, A_NOOVF], "assumptions": [A_CBMC, A_FMT, A_NOOVF],
+    "not_covered": ["brace tokenisation", "reset_vars / var_names_union and derived expressions", "the deep form's guards", "names beyond the concrete sample of var_lookup"],
+    "bounds": {"all": ["one-node FlatEx over two variables, value slices of length 0..=4 (symbolic values)", "find_parsed_vars / find_var_index on one concrete token shape"]},
+    "explanation": "Partial, bounded: arity guards and index binding of the flat form.",
+}
